@@ -89,7 +89,7 @@ func gasScenarios(u *universe, mkWorld func() *hWorld, sizes []int) []*gasScenar
 	}
 	// origin-side message -> destination-side scenario
 	addDelivered := func(name string, w *hWorld, origin *callSpec) {
-		origin.Gas = bigGas
+		origin.Gas = setupGas
 		sr := w.step(&worldOp{Kind: opTx, Call: origin})
 		mustOK(sr, name+": origin step")
 		if len(sr.NewMsgs) != 1 {
@@ -145,21 +145,21 @@ func gasScenarios(u *universe, mkWorld func() *hWorld, sizes []int) []*gasScenar
 			w := fresh()
 			add(fmt.Sprintf("SaveKeyValue/new-key/len=%d", n), w, w.mkCall(0, "SaveKeyValue", U[0], U[0], [][]byte{[]byte("k1"), rep('v', n+1)}, 0))
 			w = fresh()
-			mustOK(w.tx(U[0], U[0], "SaveKeyValue", bigGas, []byte("k1"), rep('v', n+1)), "skv setup")
+			mustOK(w.tx(U[0], U[0], "SaveKeyValue", setupGas, []byte("k1"), rep('v', n+1)), "skv setup")
 			add(fmt.Sprintf("SaveKeyValue/unchanged-value(F7)/len=%d", n), w, w.mkCall(0, "SaveKeyValue", U[0], U[0], [][]byte{[]byte("k1"), rep('v', n+1)}, 0))
 			w = fresh()
-			mustOK(w.tx(U[0], U[0], "SaveKeyValue", bigGas, []byte("k1"), rep('v', n+1)), "skv setup")
+			mustOK(w.tx(U[0], U[0], "SaveKeyValue", setupGas, []byte("k1"), rep('v', n+1)), "skv setup")
 			add(fmt.Sprintf("SaveKeyValue/growing-value/len=%d", n), w, w.mkCall(0, "SaveKeyValue", U[0], U[0], [][]byte{[]byte("k1"), rep('w', 2*n+3)}, 0))
 			w = fresh()
-			mustOK(w.tx(U[0], U[0], "SaveKeyValue", bigGas, []byte("k1"), rep('v', 2*n+3)), "skv setup")
+			mustOK(w.tx(U[0], U[0], "SaveKeyValue", setupGas, []byte("k1"), rep('v', 2*n+3)), "skv setup")
 			add(fmt.Sprintf("SaveKeyValue/shrinking-value/len=%d", n), w, w.mkCall(0, "SaveKeyValue", U[0], U[0], [][]byte{[]byte("k1"), rep('w', n+1)}, 0))
 		}
 		w := fresh()
-		mustOK(w.tx(U[0], U[0], "SaveKeyValue", bigGas, []byte("k1"), []byte("same"), []byte("k2"), []byte("old")), "skv setup")
+		mustOK(w.tx(U[0], U[0], "SaveKeyValue", setupGas, []byte("k1"), []byte("same"), []byte("k2"), []byte("old")), "skv setup")
 		add("SaveKeyValue/three-pairs(unchanged,changed,new)", w, w.mkCall(0, "SaveKeyValue", U[0], U[0],
 			[][]byte{[]byte("k1"), []byte("same"), []byte("k2"), []byte("newer-value"), []byte("k3"), []byte("x")}, 0))
 		w = fresh()
-		mustOK(w.tx(U[0], U[0], "SaveKeyValue", bigGas, []byte("k1"), []byte("same"), []byte("k2"), []byte("same2")), "skv setup")
+		mustOK(w.tx(U[0], U[0], "SaveKeyValue", setupGas, []byte("k1"), []byte("same"), []byte("k2"), []byte("same2")), "skv setup")
 		add("SaveKeyValue/two-pairs-all-unchanged(F7)", w, w.mkCall(0, "SaveKeyValue", U[0], U[0],
 			[][]byte{[]byte("k1"), []byte("same"), []byte("k2"), []byte("same2")}, 0))
 		w = fresh()
@@ -246,7 +246,7 @@ func gasScenarios(u *universe, mkWorld func() *hWorld, sizes []int) []*gasScenar
 		w := fresh()
 		add("ESDTNFTTransfer/same-shard-user", w, w.mkCall(0, "ESDTNFTTransfer", U[0], U[0], [][]byte{sft, be(1), be(5), U[1]}, 0))
 		w = fresh()
-		mustOK(w.tx(U[0], U[0], "ESDTNFTTransfer", bigGas, sft, be(1), be(5), U[1]), "nft setup")
+		mustOK(w.tx(U[0], U[0], "ESDTNFTTransfer", setupGas, sft, be(1), be(5), U[1]), "nft setup")
 		add("ESDTNFTTransfer/same-shard-user(destination already holds)", w, w.mkCall(0, "ESDTNFTTransfer", U[0], U[0], [][]byte{sft, be(1), be(7), U[1]}, 0))
 		w = fresh()
 		add("ESDTNFTTransfer/same-shard-contract-call(forwards)", w, w.mkCall(0, "ESDTNFTTransfer", U[0], U[0], [][]byte{sft, be(1), be(5), K[0], []byte("deposit"), {9}}, 0))
@@ -305,6 +305,9 @@ func (c *ctx) runOn(sc *gasScenario, gas uint64, emit bool) *callResult {
 }
 
 const learnGas = uint64(1) << 62
+
+// setupGas pays for the preparatory calls of a scenario under any 32-bit schedule and any swept size
+const setupGas = uint64(1) << 60
 
 func stdPopulated(u *universe, gas map[string]map[string]uint64) func() *hWorld {
 	return func() *hWorld {
